@@ -506,30 +506,41 @@ class _BinErr(Exception):
 
 
 def _m_a2b_base64(data):
-    """model of binascii.a2b_base64 (non-strict) restricted to inputs without whitespace: data chars then '=' pad"""
+    """model of binascii.a2b_base64 in its default (non-strict) mode, after CPython's algorithm: characters outside the
+    alphabet are skipped; '=' is counted as padding only once two data characters of the quad have been seen and ends the
+    data when the quad is complete; a dangling quad is an error"""
     data = SBytes.lift(data)
-    if len(data) % 4:
-        raise _BinErr("Incorrect padding")
-    b = list(data.b)
-    npad = 0
-    while b and isinstance(b[-1], int) and b[-1] == 0x3D and npad < 2:
-        b.pop()
-        npad += 1
     lookup = dict((v, i) for i, v in enumerate(b64ref.STD_B64))
     dec = STable([lookup.get(i, 0) for i in range(256)], "std64.dec")
     gs = []
-    for c in b:
+    quad_pos = 0
+    pads = 0
+    done = False
+    for c in data.b:
+        is_pad = (c == 0x3D) if isinstance(c, int) else sym.elem_in(c, [0x3D])
+        if is_pad:
+            if quad_pos >= 2:
+                pads += 1
+                if quad_pos + pads >= 4:
+                    done = True
+                    break
+            continue
         if isinstance(c, int):
             if c not in lookup:
-                raise Unsupported("model: foreign character in a2b_base64 input")
-            gs.append(z3.BitVecVal(lookup[c], 6))
+                continue
+            g = z3.BitVecVal(lookup[c], 6)
         else:
             if not sym.elem_in(c, list(b64ref.STD_B64)):
-                raise Unsupported("model: foreign character in a2b_base64 input")
+                continue
             d = dec[SInt(c, 8)]
-            gs.append(d.ext(6) if d.w <= 6 else d.trunc(6).e)
-    if len(gs) % 4 == 1:
-        raise _BinErr("Invalid base64 length")
+            g = d.ext(6) if d.w <= 6 else d.trunc(6).e
+        pads = 0
+        gs.append(g)
+        quad_pos = (quad_pos + 1) & 3
+    if not done and quad_pos != 0:
+        if quad_pos == 1:
+            raise _BinErr("Invalid base64-encoded string: number of data characters cannot be 1 more than a multiple of 4")
+        raise _BinErr("Incorrect padding")
     return SBytes(b64ref.bytes_big(gs))
 
 
